@@ -59,7 +59,7 @@ void VM<FO>::terminal(int tid, Op const& op)
   {
     if (sink_type[i] == 1)
     {
-      o << "file " << i << " " << sink_path[i] << "\n";
+      o << (sink_rotating[i] > 0 ? "rfile " : "file ") << i << " " << sink_path[i] << "\n";
     }
   }
   // statements issued so far: id thread logger result returned
